@@ -648,15 +648,25 @@ def _run_keystone(ctx):
             # both gaps wide, azimuthal < 2 * radial: a gap of the wrong width is visible to the area law in this class
             rgap = float(r.uniform(4.0, 6.0)) * dx
             agap = float(r.uniform(1.5, 1.95)) * rgap
+        wide_az = (k % 10 == 3)
+        if wide_az:
+            # azimuthal gap much wider than the radial gap, aperture inside the grid, 8..12 segments: in every tier
+            fill = min(fill, 0.95)
+            rgap = float(r.uniform(0.5, 2.0)) * dx
+            agap = float(r.uniform(8.0, 12.0)) * dx
         ring_w = (half * fill - ccd / 2) / rings - rgap
         if ring_w < 5 * dx:
             ctx.skip('keystone: ring narrower than 5 samples for this grid/ring count (not generated)')
             continue
         rot_mode = ['default', 'zero', 'scalar', 'list', 'outside-0..180'][(k // 4) % 5]
+        if wide_az and rot_mode == 'outside-0..180':
+            rot_mode = 'zero'
         lo_n = 2 if rot_mode == 'outside-0..180' else 1
         spr_mode = ['scalar', 'list'][k % 2]
         if spr_mode == 'scalar':
             spr = int(r.integers(lo_n, 13)) if k % 14 != 6 else 1          # a ring made of one segment, in every tier
+            if wide_az:
+                spr = int(r.integers(8, 13))
             spr_list = [spr] * rings
         else:
             base_n = int(r.integers(2, 9))
